@@ -138,6 +138,8 @@ def check_case(case, ctx):
     kept_ic = S.ic_numpy(shared[1], case["state"]) if kind == "numpy" else None  # one dictionary for all steps
     for step_no, m in enumerate(case["masks"]):
         opts = mask_to_opts(m)
+        if "positive_init_speed" in opts and any(o["kind"] == "main" and case["state"][o["id"]]["v_ctrl"][0] < 0 for o in sp["origins"]):
+            ctx.label("init-speed-flag+negative-mainstream-limit")
         ctx.label("opts:none" if m == 0 else "opts:all" if m == 63 else "opts:some")
         state = case["state"]
         got = guarded(ctx, f"{kind}-step-opts", step_on, kind, sp, state, opts, shared, kept_ic)
